@@ -17,9 +17,10 @@
   The predicates (`SpEmitted` … `StackArgOffsetAbi`) and the ABI table are the specification: `FalconModel/Abi.lean`.
 
   One theorem per architecture and clause, so that a theorem that stops elaborating names the architecture and
-  the field.  All by `decide` (kernel evaluation of the `Decidable` instances of `FalconModel/Abi.lean`; axioms: at
+  the field.  All by `decide +kernel` (the kernel evaluates the `Decidable` instances of `FalconModel/Abi.lean` directly,
+  without the elaborator's slower pre-evaluation; this is NOT `native_decide`: no compiler, no extra axiom; axioms: at
   most `propext`, `Quot.sound`, which core's list/string decidability lemmas use).  `Holds` (the conjunction of
-  the clauses) is defined in `FalconModel/Abi.lean`, the one helper lemma in `FalconProofs/C20/Lemmas.lean`.
+  the clauses) is defined in `FalconModel/Abi.lean`, the two helper lemmas in `FalconProofs/C20/Lemmas.lean`.
 
   PARTIAL (one clause, two architectures — recorded finding C20/aarch64/args, C20/aarch64eb/args):
     full statement   theorem aarch64_args_in_abi_order   : ArgsInAbiOrder Arch.aarch64   (aapcs64 "little")
@@ -29,6 +30,16 @@
     general-purpose and the SIMD argument registers are two separate sequences, NGRN/NSRN).  Every other table
     lists the integer-class registers only.  Proved instead (`…_args_in_abi_order_partial`): the list is the
     ABI's integer sequence in order followed by exactly the ABI's SIMD sequence in order.
+    The same finding seen through the query: `aarch64_arg_types_abi` / `aarch64eb_arg_types_abi`
+    (`ArgTypesAbi`: answers 8..15 of `argument_type` are `Stack(8 * (n - 8))`) are false; proved instead
+    (`…_arg_types_abi_partial`): x0..x7, v0..v7, then `Stack(8 * (n - 16))`.  The stride of the stack answers is
+    NOT affected by the finding and is proved in full for all seven (`…_stack_args_word_apart`).
+
+  The queries (`CallingConvention::argument_type / is_preserved / is_trashed`) are part of the regenerated table:
+  `argTypes` = the answers for n = 0 ..= (argument registers + 6), `isPreserved`/`isTrashed` = the answers for
+  every probe register.  So a change of the query code (not only of the tables) changes `Generated.Arch` and
+  the theorems `…_arg_types_abi`, `…_stack_args_word_apart`, `…_queries_agree` are re-proved against it
+  (plain `decide` hits the elaborator's recursion limit on the ~100-entry probe lists; one more reason for `+kernel`).
 -/
 import FalconModel.Abi
 import FalconProofs.C20.Lemmas
@@ -40,7 +51,7 @@ open Falcon.Generated
 
 /-! ### The table is the table of the seven architectures, and the ABI assignment is the one the driver uses -/
 
-theorem table_names : Arch.all.map (·.name) = archNames := by decide
+theorem table_names : Arch.all.map (·.name) = archNames := by decide +kernel
 
 theorem abi_assignment :
     abiOf "x86" = some sysvI386 ∧ abiOf "amd64" = some sysvAmd64 ∧
@@ -53,276 +64,355 @@ theorem abi_assignment :
 /-! ### x86 -/
 
 /-- x86: the stack-pointer scalar occurs in the sweep with that width, which is the word size -/
-theorem x86_sp_emitted : SpEmitted Arch.x86 := by decide
+theorem x86_sp_emitted : SpEmitted Arch.x86 := by decide +kernel
 
 /-- x86: the stack pointer is the ABI's stack pointer -/
-theorem x86_sp_abi : SpAbi Arch.x86 sysvI386 := by decide
+theorem x86_sp_abi : SpAbi Arch.x86 sysvI386 := by decide +kernel
 
 /-- x86: word size = address width of lifted loads and stores = the ABI's word -/
-theorem x86_word_size_agrees : WordSizeAgrees Arch.x86 sysvI386 := by decide
+theorem x86_word_size_agrees : WordSizeAgrees Arch.x86 sysvI386 := by decide +kernel
 
 /-- x86: endianness = the ABI's; a lifted store leaves the bytes in that order; instruction fetch order is the ABI's -/
-theorem x86_endian_agrees : EndianAgrees Arch.x86 sysvI386 := by decide
+theorem x86_endian_agrees : EndianAgrees Arch.x86 sysvI386 := by decide +kernel
 
 /-- x86: every register the convention names is a scalar of the sweep, with that width -/
-theorem x86_cc_regs_emitted : CcRegsEmitted Arch.x86 := by decide
+theorem x86_cc_regs_emitted : CcRegsEmitted Arch.x86 := by decide +kernel
 
 /-- x86: no register name is both preserved and trashed -/
-theorem x86_preserved_trashed_disjoint : PreservedTrashedDisjoint Arch.x86 := by decide
+theorem x86_preserved_trashed_disjoint : PreservedTrashedDisjoint Arch.x86 := by decide +kernel
 
 /-- x86: the stack pointer is preserved -/
-theorem x86_sp_preserved : SpPreserved Arch.x86 := by decide
+theorem x86_sp_preserved : SpPreserved Arch.x86 := by decide +kernel
 
 /-- x86: the argument registers are the ABI's integer argument registers, in order -/
-theorem x86_args_in_abi_order : ArgsInAbiOrder Arch.x86 sysvI386 := by decide
+theorem x86_args_in_abi_order : ArgsInAbiOrder Arch.x86 sysvI386 := by decide +kernel
 
 /-- x86: the return-value register is the ABI's -/
-theorem x86_return_reg_abi : ReturnRegAbi Arch.x86 sysvI386 := by decide
+theorem x86_return_reg_abi : ReturnRegAbi Arch.x86 sysvI386 := by decide +kernel
 
 /-- x86: the return address is where the ABI puts it -/
-theorem x86_return_addr_abi : ReturnAddrAbi Arch.x86 sysvI386 := by decide
+theorem x86_return_addr_abi : ReturnAddrAbi Arch.x86 sysvI386 := by decide +kernel
 
 /-- x86: a stack-argument slot is one machine word -/
-theorem x86_stack_arg_len_is_word : StackArgLenIsWord Arch.x86 sysvI386 := by decide
+theorem x86_stack_arg_len_is_word : StackArgLenIsWord Arch.x86 sysvI386 := by decide +kernel
 
 /-- x86: the first stack argument is at the ABI's offset from the stack pointer at entry -/
-theorem x86_stack_arg_offset_abi : StackArgOffsetAbi Arch.x86 sysvI386 := by decide
+theorem x86_stack_arg_offset_abi : StackArgOffsetAbi Arch.x86 sysvI386 := by decide +kernel
+
+/-- x86: `argument_type n` over the swept range: the ABI's integer argument registers in order, then
+    `Stack(abi offset + word bytes * (n - k))` for every later n -/
+theorem x86_arg_types_abi : ArgTypesAbi Arch.x86 sysvI386 := by decide +kernel
+
+/-- x86: the stack answers of `argument_type` start at the ABI's offset and are exactly one machine word apart -/
+theorem x86_stack_args_word_apart : StackArgsWordApart Arch.x86 sysvI386 := by decide +kernel
+
+/-- x86: `is_preserved`/`is_trashed` answer Some(true)/Some(false)/None according to the two sets on every probe
+    (all convention registers, the stack pointer, every sweep scalar, one register in neither set), never both Some(true) -/
+theorem x86_queries_agree : QueriesAgree Arch.x86 := by decide +kernel
 
 
 /-! ### amd64 -/
 
 /-- amd64: the stack-pointer scalar occurs in the sweep with that width, which is the word size -/
-theorem amd64_sp_emitted : SpEmitted Arch.amd64 := by decide
+theorem amd64_sp_emitted : SpEmitted Arch.amd64 := by decide +kernel
 
 /-- amd64: the stack pointer is the ABI's stack pointer -/
-theorem amd64_sp_abi : SpAbi Arch.amd64 sysvAmd64 := by decide
+theorem amd64_sp_abi : SpAbi Arch.amd64 sysvAmd64 := by decide +kernel
 
 /-- amd64: word size = address width of lifted loads and stores = the ABI's word -/
-theorem amd64_word_size_agrees : WordSizeAgrees Arch.amd64 sysvAmd64 := by decide
+theorem amd64_word_size_agrees : WordSizeAgrees Arch.amd64 sysvAmd64 := by decide +kernel
 
 /-- amd64: endianness = the ABI's; a lifted store leaves the bytes in that order; instruction fetch order is the ABI's -/
-theorem amd64_endian_agrees : EndianAgrees Arch.amd64 sysvAmd64 := by decide
+theorem amd64_endian_agrees : EndianAgrees Arch.amd64 sysvAmd64 := by decide +kernel
 
 /-- amd64: every register the convention names is a scalar of the sweep, with that width -/
-theorem amd64_cc_regs_emitted : CcRegsEmitted Arch.amd64 := by decide
+theorem amd64_cc_regs_emitted : CcRegsEmitted Arch.amd64 := by decide +kernel
 
 /-- amd64: no register name is both preserved and trashed -/
-theorem amd64_preserved_trashed_disjoint : PreservedTrashedDisjoint Arch.amd64 := by decide
+theorem amd64_preserved_trashed_disjoint : PreservedTrashedDisjoint Arch.amd64 := by decide +kernel
 
 /-- amd64: the stack pointer is preserved -/
-theorem amd64_sp_preserved : SpPreserved Arch.amd64 := by decide
+theorem amd64_sp_preserved : SpPreserved Arch.amd64 := by decide +kernel
 
 /-- amd64: the argument registers are the ABI's integer argument registers, in order -/
-theorem amd64_args_in_abi_order : ArgsInAbiOrder Arch.amd64 sysvAmd64 := by decide
+theorem amd64_args_in_abi_order : ArgsInAbiOrder Arch.amd64 sysvAmd64 := by decide +kernel
 
 /-- amd64: the return-value register is the ABI's -/
-theorem amd64_return_reg_abi : ReturnRegAbi Arch.amd64 sysvAmd64 := by decide
+theorem amd64_return_reg_abi : ReturnRegAbi Arch.amd64 sysvAmd64 := by decide +kernel
 
 /-- amd64: the return address is where the ABI puts it -/
-theorem amd64_return_addr_abi : ReturnAddrAbi Arch.amd64 sysvAmd64 := by decide
+theorem amd64_return_addr_abi : ReturnAddrAbi Arch.amd64 sysvAmd64 := by decide +kernel
 
 /-- amd64: a stack-argument slot is one machine word -/
-theorem amd64_stack_arg_len_is_word : StackArgLenIsWord Arch.amd64 sysvAmd64 := by decide
+theorem amd64_stack_arg_len_is_word : StackArgLenIsWord Arch.amd64 sysvAmd64 := by decide +kernel
 
 /-- amd64: the first stack argument is at the ABI's offset from the stack pointer at entry -/
-theorem amd64_stack_arg_offset_abi : StackArgOffsetAbi Arch.amd64 sysvAmd64 := by decide
+theorem amd64_stack_arg_offset_abi : StackArgOffsetAbi Arch.amd64 sysvAmd64 := by decide +kernel
+
+/-- amd64: `argument_type n` over the swept range: the ABI's integer argument registers in order, then
+    `Stack(abi offset + word bytes * (n - k))` for every later n -/
+theorem amd64_arg_types_abi : ArgTypesAbi Arch.amd64 sysvAmd64 := by decide +kernel
+
+/-- amd64: the stack answers of `argument_type` start at the ABI's offset and are exactly one machine word apart -/
+theorem amd64_stack_args_word_apart : StackArgsWordApart Arch.amd64 sysvAmd64 := by decide +kernel
+
+/-- amd64: `is_preserved`/`is_trashed` answer Some(true)/Some(false)/None according to the two sets on every probe
+    (all convention registers, the stack pointer, every sweep scalar, one register in neither set), never both Some(true) -/
+theorem amd64_queries_agree : QueriesAgree Arch.amd64 := by decide +kernel
 
 
 /-! ### mips -/
 
 /-- mips: the stack-pointer scalar occurs in the sweep with that width, which is the word size -/
-theorem mips_sp_emitted : SpEmitted Arch.mips := by decide
+theorem mips_sp_emitted : SpEmitted Arch.mips := by decide +kernel
 
 /-- mips: the stack pointer is the ABI's stack pointer -/
-theorem mips_sp_abi : SpAbi Arch.mips (mipsO32 "big") := by decide
+theorem mips_sp_abi : SpAbi Arch.mips (mipsO32 "big") := by decide +kernel
 
 /-- mips: word size = address width of lifted loads and stores = the ABI's word -/
-theorem mips_word_size_agrees : WordSizeAgrees Arch.mips (mipsO32 "big") := by decide
+theorem mips_word_size_agrees : WordSizeAgrees Arch.mips (mipsO32 "big") := by decide +kernel
 
 /-- mips: endianness = the ABI's; a lifted store leaves the bytes in that order; instruction fetch order is the ABI's -/
-theorem mips_endian_agrees : EndianAgrees Arch.mips (mipsO32 "big") := by decide
+theorem mips_endian_agrees : EndianAgrees Arch.mips (mipsO32 "big") := by decide +kernel
 
 /-- mips: every register the convention names is a scalar of the sweep, with that width -/
-theorem mips_cc_regs_emitted : CcRegsEmitted Arch.mips := by decide
+theorem mips_cc_regs_emitted : CcRegsEmitted Arch.mips := by decide +kernel
 
 /-- mips: no register name is both preserved and trashed -/
-theorem mips_preserved_trashed_disjoint : PreservedTrashedDisjoint Arch.mips := by decide
+theorem mips_preserved_trashed_disjoint : PreservedTrashedDisjoint Arch.mips := by decide +kernel
 
 /-- mips: the stack pointer is preserved -/
-theorem mips_sp_preserved : SpPreserved Arch.mips := by decide
+theorem mips_sp_preserved : SpPreserved Arch.mips := by decide +kernel
 
 /-- mips: the argument registers are the ABI's integer argument registers, in order -/
-theorem mips_args_in_abi_order : ArgsInAbiOrder Arch.mips (mipsO32 "big") := by decide
+theorem mips_args_in_abi_order : ArgsInAbiOrder Arch.mips (mipsO32 "big") := by decide +kernel
 
 /-- mips: the return-value register is the ABI's -/
-theorem mips_return_reg_abi : ReturnRegAbi Arch.mips (mipsO32 "big") := by decide
+theorem mips_return_reg_abi : ReturnRegAbi Arch.mips (mipsO32 "big") := by decide +kernel
 
 /-- mips: the return address is where the ABI puts it -/
-theorem mips_return_addr_abi : ReturnAddrAbi Arch.mips (mipsO32 "big") := by decide
+theorem mips_return_addr_abi : ReturnAddrAbi Arch.mips (mipsO32 "big") := by decide +kernel
 
 /-- mips: a stack-argument slot is one machine word -/
-theorem mips_stack_arg_len_is_word : StackArgLenIsWord Arch.mips (mipsO32 "big") := by decide
+theorem mips_stack_arg_len_is_word : StackArgLenIsWord Arch.mips (mipsO32 "big") := by decide +kernel
 
 /-- mips: the first stack argument is at the ABI's offset from the stack pointer at entry -/
-theorem mips_stack_arg_offset_abi : StackArgOffsetAbi Arch.mips (mipsO32 "big") := by decide
+theorem mips_stack_arg_offset_abi : StackArgOffsetAbi Arch.mips (mipsO32 "big") := by decide +kernel
+
+/-- mips: `argument_type n` over the swept range: the ABI's integer argument registers in order, then
+    `Stack(abi offset + word bytes * (n - k))` for every later n -/
+theorem mips_arg_types_abi : ArgTypesAbi Arch.mips (mipsO32 "big") := by decide +kernel
+
+/-- mips: the stack answers of `argument_type` start at the ABI's offset and are exactly one machine word apart -/
+theorem mips_stack_args_word_apart : StackArgsWordApart Arch.mips (mipsO32 "big") := by decide +kernel
+
+/-- mips: `is_preserved`/`is_trashed` answer Some(true)/Some(false)/None according to the two sets on every probe
+    (all convention registers, the stack pointer, every sweep scalar, one register in neither set), never both Some(true) -/
+theorem mips_queries_agree : QueriesAgree Arch.mips := by decide +kernel
 
 
 /-! ### mipsel -/
 
 /-- mipsel: the stack-pointer scalar occurs in the sweep with that width, which is the word size -/
-theorem mipsel_sp_emitted : SpEmitted Arch.mipsel := by decide
+theorem mipsel_sp_emitted : SpEmitted Arch.mipsel := by decide +kernel
 
 /-- mipsel: the stack pointer is the ABI's stack pointer -/
-theorem mipsel_sp_abi : SpAbi Arch.mipsel (mipsO32 "little") := by decide
+theorem mipsel_sp_abi : SpAbi Arch.mipsel (mipsO32 "little") := by decide +kernel
 
 /-- mipsel: word size = address width of lifted loads and stores = the ABI's word -/
-theorem mipsel_word_size_agrees : WordSizeAgrees Arch.mipsel (mipsO32 "little") := by decide
+theorem mipsel_word_size_agrees : WordSizeAgrees Arch.mipsel (mipsO32 "little") := by decide +kernel
 
 /-- mipsel: endianness = the ABI's; a lifted store leaves the bytes in that order; instruction fetch order is the ABI's -/
-theorem mipsel_endian_agrees : EndianAgrees Arch.mipsel (mipsO32 "little") := by decide
+theorem mipsel_endian_agrees : EndianAgrees Arch.mipsel (mipsO32 "little") := by decide +kernel
 
 /-- mipsel: every register the convention names is a scalar of the sweep, with that width -/
-theorem mipsel_cc_regs_emitted : CcRegsEmitted Arch.mipsel := by decide
+theorem mipsel_cc_regs_emitted : CcRegsEmitted Arch.mipsel := by decide +kernel
 
 /-- mipsel: no register name is both preserved and trashed -/
-theorem mipsel_preserved_trashed_disjoint : PreservedTrashedDisjoint Arch.mipsel := by decide
+theorem mipsel_preserved_trashed_disjoint : PreservedTrashedDisjoint Arch.mipsel := by decide +kernel
 
 /-- mipsel: the stack pointer is preserved -/
-theorem mipsel_sp_preserved : SpPreserved Arch.mipsel := by decide
+theorem mipsel_sp_preserved : SpPreserved Arch.mipsel := by decide +kernel
 
 /-- mipsel: the argument registers are the ABI's integer argument registers, in order -/
-theorem mipsel_args_in_abi_order : ArgsInAbiOrder Arch.mipsel (mipsO32 "little") := by decide
+theorem mipsel_args_in_abi_order : ArgsInAbiOrder Arch.mipsel (mipsO32 "little") := by decide +kernel
 
 /-- mipsel: the return-value register is the ABI's -/
-theorem mipsel_return_reg_abi : ReturnRegAbi Arch.mipsel (mipsO32 "little") := by decide
+theorem mipsel_return_reg_abi : ReturnRegAbi Arch.mipsel (mipsO32 "little") := by decide +kernel
 
 /-- mipsel: the return address is where the ABI puts it -/
-theorem mipsel_return_addr_abi : ReturnAddrAbi Arch.mipsel (mipsO32 "little") := by decide
+theorem mipsel_return_addr_abi : ReturnAddrAbi Arch.mipsel (mipsO32 "little") := by decide +kernel
 
 /-- mipsel: a stack-argument slot is one machine word -/
-theorem mipsel_stack_arg_len_is_word : StackArgLenIsWord Arch.mipsel (mipsO32 "little") := by decide
+theorem mipsel_stack_arg_len_is_word : StackArgLenIsWord Arch.mipsel (mipsO32 "little") := by decide +kernel
 
 /-- mipsel: the first stack argument is at the ABI's offset from the stack pointer at entry -/
-theorem mipsel_stack_arg_offset_abi : StackArgOffsetAbi Arch.mipsel (mipsO32 "little") := by decide
+theorem mipsel_stack_arg_offset_abi : StackArgOffsetAbi Arch.mipsel (mipsO32 "little") := by decide +kernel
+
+/-- mipsel: `argument_type n` over the swept range: the ABI's integer argument registers in order, then
+    `Stack(abi offset + word bytes * (n - k))` for every later n -/
+theorem mipsel_arg_types_abi : ArgTypesAbi Arch.mipsel (mipsO32 "little") := by decide +kernel
+
+/-- mipsel: the stack answers of `argument_type` start at the ABI's offset and are exactly one machine word apart -/
+theorem mipsel_stack_args_word_apart : StackArgsWordApart Arch.mipsel (mipsO32 "little") := by decide +kernel
+
+/-- mipsel: `is_preserved`/`is_trashed` answer Some(true)/Some(false)/None according to the two sets on every probe
+    (all convention registers, the stack pointer, every sweep scalar, one register in neither set), never both Some(true) -/
+theorem mipsel_queries_agree : QueriesAgree Arch.mipsel := by decide +kernel
 
 
 /-! ### ppc -/
 
 /-- ppc: the stack-pointer scalar occurs in the sweep with that width, which is the word size -/
-theorem ppc_sp_emitted : SpEmitted Arch.ppc := by decide
+theorem ppc_sp_emitted : SpEmitted Arch.ppc := by decide +kernel
 
 /-- ppc: the stack pointer is the ABI's stack pointer -/
-theorem ppc_sp_abi : SpAbi Arch.ppc sysvPpc32 := by decide
+theorem ppc_sp_abi : SpAbi Arch.ppc sysvPpc32 := by decide +kernel
 
 /-- ppc: word size = address width of lifted loads and stores = the ABI's word -/
-theorem ppc_word_size_agrees : WordSizeAgrees Arch.ppc sysvPpc32 := by decide
+theorem ppc_word_size_agrees : WordSizeAgrees Arch.ppc sysvPpc32 := by decide +kernel
 
 /-- ppc: endianness = the ABI's; a lifted store leaves the bytes in that order; instruction fetch order is the ABI's -/
-theorem ppc_endian_agrees : EndianAgrees Arch.ppc sysvPpc32 := by decide
+theorem ppc_endian_agrees : EndianAgrees Arch.ppc sysvPpc32 := by decide +kernel
 
 /-- ppc: every register the convention names is a scalar of the sweep, with that width -/
-theorem ppc_cc_regs_emitted : CcRegsEmitted Arch.ppc := by decide
+theorem ppc_cc_regs_emitted : CcRegsEmitted Arch.ppc := by decide +kernel
 
 /-- ppc: no register name is both preserved and trashed -/
-theorem ppc_preserved_trashed_disjoint : PreservedTrashedDisjoint Arch.ppc := by decide
+theorem ppc_preserved_trashed_disjoint : PreservedTrashedDisjoint Arch.ppc := by decide +kernel
 
 /-- ppc: the stack pointer is preserved -/
-theorem ppc_sp_preserved : SpPreserved Arch.ppc := by decide
+theorem ppc_sp_preserved : SpPreserved Arch.ppc := by decide +kernel
 
 /-- ppc: the argument registers are the ABI's integer argument registers, in order -/
-theorem ppc_args_in_abi_order : ArgsInAbiOrder Arch.ppc sysvPpc32 := by decide
+theorem ppc_args_in_abi_order : ArgsInAbiOrder Arch.ppc sysvPpc32 := by decide +kernel
 
 /-- ppc: the return-value register is the ABI's -/
-theorem ppc_return_reg_abi : ReturnRegAbi Arch.ppc sysvPpc32 := by decide
+theorem ppc_return_reg_abi : ReturnRegAbi Arch.ppc sysvPpc32 := by decide +kernel
 
 /-- ppc: the return address is where the ABI puts it -/
-theorem ppc_return_addr_abi : ReturnAddrAbi Arch.ppc sysvPpc32 := by decide
+theorem ppc_return_addr_abi : ReturnAddrAbi Arch.ppc sysvPpc32 := by decide +kernel
 
 /-- ppc: a stack-argument slot is one machine word -/
-theorem ppc_stack_arg_len_is_word : StackArgLenIsWord Arch.ppc sysvPpc32 := by decide
+theorem ppc_stack_arg_len_is_word : StackArgLenIsWord Arch.ppc sysvPpc32 := by decide +kernel
 
 /-- ppc: the first stack argument is at the ABI's offset from the stack pointer at entry -/
-theorem ppc_stack_arg_offset_abi : StackArgOffsetAbi Arch.ppc sysvPpc32 := by decide
+theorem ppc_stack_arg_offset_abi : StackArgOffsetAbi Arch.ppc sysvPpc32 := by decide +kernel
+
+/-- ppc: `argument_type n` over the swept range: the ABI's integer argument registers in order, then
+    `Stack(abi offset + word bytes * (n - k))` for every later n -/
+theorem ppc_arg_types_abi : ArgTypesAbi Arch.ppc sysvPpc32 := by decide +kernel
+
+/-- ppc: the stack answers of `argument_type` start at the ABI's offset and are exactly one machine word apart -/
+theorem ppc_stack_args_word_apart : StackArgsWordApart Arch.ppc sysvPpc32 := by decide +kernel
+
+/-- ppc: `is_preserved`/`is_trashed` answer Some(true)/Some(false)/None according to the two sets on every probe
+    (all convention registers, the stack pointer, every sweep scalar, one register in neither set), never both Some(true) -/
+theorem ppc_queries_agree : QueriesAgree Arch.ppc := by decide +kernel
 
 
 /-! ### aarch64 -/
 
 /-- aarch64: the stack-pointer scalar occurs in the sweep with that width, which is the word size -/
-theorem aarch64_sp_emitted : SpEmitted Arch.aarch64 := by decide
+theorem aarch64_sp_emitted : SpEmitted Arch.aarch64 := by decide +kernel
 
 /-- aarch64: the stack pointer is the ABI's stack pointer -/
-theorem aarch64_sp_abi : SpAbi Arch.aarch64 (aapcs64 "little") := by decide
+theorem aarch64_sp_abi : SpAbi Arch.aarch64 (aapcs64 "little") := by decide +kernel
 
 /-- aarch64: word size = address width of lifted loads and stores = the ABI's word -/
-theorem aarch64_word_size_agrees : WordSizeAgrees Arch.aarch64 (aapcs64 "little") := by decide
+theorem aarch64_word_size_agrees : WordSizeAgrees Arch.aarch64 (aapcs64 "little") := by decide +kernel
 
 /-- aarch64: endianness = the ABI's; a lifted store leaves the bytes in that order; instruction fetch order is the ABI's -/
-theorem aarch64_endian_agrees : EndianAgrees Arch.aarch64 (aapcs64 "little") := by decide
+theorem aarch64_endian_agrees : EndianAgrees Arch.aarch64 (aapcs64 "little") := by decide +kernel
 
 /-- aarch64: every register the convention names is a scalar of the sweep, with that width -/
-theorem aarch64_cc_regs_emitted : CcRegsEmitted Arch.aarch64 := by decide
+theorem aarch64_cc_regs_emitted : CcRegsEmitted Arch.aarch64 := by decide +kernel
 
 /-- aarch64: no register name is both preserved and trashed -/
-theorem aarch64_preserved_trashed_disjoint : PreservedTrashedDisjoint Arch.aarch64 := by decide
+theorem aarch64_preserved_trashed_disjoint : PreservedTrashedDisjoint Arch.aarch64 := by decide +kernel
 
 /-- aarch64: the stack pointer is preserved -/
-theorem aarch64_sp_preserved : SpPreserved Arch.aarch64 := by decide
+theorem aarch64_sp_preserved : SpPreserved Arch.aarch64 := by decide +kernel
 
 /-- aarch64 (PARTIAL, see the header; excluded: `argument_type n` for n ≥ 8): the argument list is the ABI's
     integer sequence x0..x7 in order, followed by exactly the ABI's SIMD sequence v0..v7 (128 bits) in order -/
-theorem aarch64_args_in_abi_order_partial : ArgsIntThenFp Arch.aarch64 (aapcs64 "little") := by decide
+theorem aarch64_args_in_abi_order_partial : ArgsIntThenFp Arch.aarch64 (aapcs64 "little") := by decide +kernel
 
 /-- aarch64: the return-value register is the ABI's -/
-theorem aarch64_return_reg_abi : ReturnRegAbi Arch.aarch64 (aapcs64 "little") := by decide
+theorem aarch64_return_reg_abi : ReturnRegAbi Arch.aarch64 (aapcs64 "little") := by decide +kernel
 
 /-- aarch64: the return address is where the ABI puts it -/
-theorem aarch64_return_addr_abi : ReturnAddrAbi Arch.aarch64 (aapcs64 "little") := by decide
+theorem aarch64_return_addr_abi : ReturnAddrAbi Arch.aarch64 (aapcs64 "little") := by decide +kernel
 
 /-- aarch64: a stack-argument slot is one machine word -/
-theorem aarch64_stack_arg_len_is_word : StackArgLenIsWord Arch.aarch64 (aapcs64 "little") := by decide
+theorem aarch64_stack_arg_len_is_word : StackArgLenIsWord Arch.aarch64 (aapcs64 "little") := by decide +kernel
 
 /-- aarch64: the first stack argument is at the ABI's offset from the stack pointer at entry -/
-theorem aarch64_stack_arg_offset_abi : StackArgOffsetAbi Arch.aarch64 (aapcs64 "little") := by decide
+theorem aarch64_stack_arg_offset_abi : StackArgOffsetAbi Arch.aarch64 (aapcs64 "little") := by decide +kernel
+
+/-- aarch64 (PARTIAL, same finding as `aarch64_args_in_abi_order_partial`): `argument_type n` for n = 0 ..= 22 answers the
+    ABI's integer registers x0..x7, then the SIMD registers v0..v7, then `Stack(0 + 8 * (n - 16))`.  The full
+    statement `ArgTypesAbi Arch.aarch64 (aapcs64 "little")` (answers 8..15 are `Stack(8 * (n - 8))`) is false on today's table. -/
+theorem aarch64_arg_types_abi_partial : ArgTypesIntThenFp Arch.aarch64 (aapcs64 "little") := by decide +kernel
+
+/-- aarch64: the stack answers of `argument_type` start at the ABI's offset and are exactly one machine word apart -/
+theorem aarch64_stack_args_word_apart : StackArgsWordApart Arch.aarch64 (aapcs64 "little") := by decide +kernel
+
+/-- aarch64: `is_preserved`/`is_trashed` answer Some(true)/Some(false)/None according to the two sets on every probe
+    (all convention registers, the stack pointer, every sweep scalar, one register in neither set), never both Some(true) -/
+theorem aarch64_queries_agree : QueriesAgree Arch.aarch64 := by decide +kernel
 
 
 /-! ### aarch64eb -/
 
 /-- aarch64eb: the stack-pointer scalar occurs in the sweep with that width, which is the word size -/
-theorem aarch64eb_sp_emitted : SpEmitted Arch.aarch64eb := by decide
+theorem aarch64eb_sp_emitted : SpEmitted Arch.aarch64eb := by decide +kernel
 
 /-- aarch64eb: the stack pointer is the ABI's stack pointer -/
-theorem aarch64eb_sp_abi : SpAbi Arch.aarch64eb (aapcs64 "big") := by decide
+theorem aarch64eb_sp_abi : SpAbi Arch.aarch64eb (aapcs64 "big") := by decide +kernel
 
 /-- aarch64eb: word size = address width of lifted loads and stores = the ABI's word -/
-theorem aarch64eb_word_size_agrees : WordSizeAgrees Arch.aarch64eb (aapcs64 "big") := by decide
+theorem aarch64eb_word_size_agrees : WordSizeAgrees Arch.aarch64eb (aapcs64 "big") := by decide +kernel
 
 /-- aarch64eb: endianness = the ABI's; a lifted store leaves the bytes in that order; instruction fetch order is the ABI's -/
-theorem aarch64eb_endian_agrees : EndianAgrees Arch.aarch64eb (aapcs64 "big") := by decide
+theorem aarch64eb_endian_agrees : EndianAgrees Arch.aarch64eb (aapcs64 "big") := by decide +kernel
 
 /-- aarch64eb: every register the convention names is a scalar of the sweep, with that width -/
-theorem aarch64eb_cc_regs_emitted : CcRegsEmitted Arch.aarch64eb := by decide
+theorem aarch64eb_cc_regs_emitted : CcRegsEmitted Arch.aarch64eb := by decide +kernel
 
 /-- aarch64eb: no register name is both preserved and trashed -/
-theorem aarch64eb_preserved_trashed_disjoint : PreservedTrashedDisjoint Arch.aarch64eb := by decide
+theorem aarch64eb_preserved_trashed_disjoint : PreservedTrashedDisjoint Arch.aarch64eb := by decide +kernel
 
 /-- aarch64eb: the stack pointer is preserved -/
-theorem aarch64eb_sp_preserved : SpPreserved Arch.aarch64eb := by decide
+theorem aarch64eb_sp_preserved : SpPreserved Arch.aarch64eb := by decide +kernel
 
 /-- aarch64eb (PARTIAL, see the header; excluded: `argument_type n` for n ≥ 8): the argument list is the ABI's
     integer sequence x0..x7 in order, followed by exactly the ABI's SIMD sequence v0..v7 (128 bits) in order -/
-theorem aarch64eb_args_in_abi_order_partial : ArgsIntThenFp Arch.aarch64eb (aapcs64 "big") := by decide
+theorem aarch64eb_args_in_abi_order_partial : ArgsIntThenFp Arch.aarch64eb (aapcs64 "big") := by decide +kernel
 
 /-- aarch64eb: the return-value register is the ABI's -/
-theorem aarch64eb_return_reg_abi : ReturnRegAbi Arch.aarch64eb (aapcs64 "big") := by decide
+theorem aarch64eb_return_reg_abi : ReturnRegAbi Arch.aarch64eb (aapcs64 "big") := by decide +kernel
 
 /-- aarch64eb: the return address is where the ABI puts it -/
-theorem aarch64eb_return_addr_abi : ReturnAddrAbi Arch.aarch64eb (aapcs64 "big") := by decide
+theorem aarch64eb_return_addr_abi : ReturnAddrAbi Arch.aarch64eb (aapcs64 "big") := by decide +kernel
 
 /-- aarch64eb: a stack-argument slot is one machine word -/
-theorem aarch64eb_stack_arg_len_is_word : StackArgLenIsWord Arch.aarch64eb (aapcs64 "big") := by decide
+theorem aarch64eb_stack_arg_len_is_word : StackArgLenIsWord Arch.aarch64eb (aapcs64 "big") := by decide +kernel
 
 /-- aarch64eb: the first stack argument is at the ABI's offset from the stack pointer at entry -/
-theorem aarch64eb_stack_arg_offset_abi : StackArgOffsetAbi Arch.aarch64eb (aapcs64 "big") := by decide
+theorem aarch64eb_stack_arg_offset_abi : StackArgOffsetAbi Arch.aarch64eb (aapcs64 "big") := by decide +kernel
+
+/-- aarch64eb (PARTIAL, same finding as `aarch64eb_args_in_abi_order_partial`): `argument_type n` for n = 0 ..= 22 answers the
+    ABI's integer registers x0..x7, then the SIMD registers v0..v7, then `Stack(0 + 8 * (n - 16))`.  The full
+    statement `ArgTypesAbi Arch.aarch64eb (aapcs64 "big")` (answers 8..15 are `Stack(8 * (n - 8))`) is false on today's table. -/
+theorem aarch64eb_arg_types_abi_partial : ArgTypesIntThenFp Arch.aarch64eb (aapcs64 "big") := by decide +kernel
+
+/-- aarch64eb: the stack answers of `argument_type` start at the ABI's offset and are exactly one machine word apart -/
+theorem aarch64eb_stack_args_word_apart : StackArgsWordApart Arch.aarch64eb (aapcs64 "big") := by decide +kernel
+
+/-- aarch64eb: `is_preserved`/`is_trashed` answer Some(true)/Some(false)/None according to the two sets on every probe
+    (all convention registers, the stack pointer, every sweep scalar, one register in neither set), never both Some(true) -/
+theorem aarch64eb_queries_agree : QueriesAgree Arch.aarch64eb := by decide +kernel
 
 
 /-! ### All seven at once (from the theorems above) -/
@@ -336,31 +426,38 @@ theorem every_architecture_partial : ∀ d ∈ Arch.all, ∃ a, abiOf d.name = s
   · exact ⟨sysvI386, rfl, x86_sp_emitted, x86_sp_abi, x86_word_size_agrees, x86_endian_agrees,
       x86_cc_regs_emitted, x86_preserved_trashed_disjoint, x86_sp_preserved,
       argsIntThenFp_of_inAbiOrder rfl x86_args_in_abi_order, x86_return_reg_abi, x86_return_addr_abi,
-      x86_stack_arg_len_is_word, x86_stack_arg_offset_abi⟩
+      x86_stack_arg_len_is_word, x86_stack_arg_offset_abi,
+      argTypesIntThenFp_of_abi rfl x86_arg_types_abi, x86_stack_args_word_apart, x86_queries_agree⟩
   · exact ⟨sysvAmd64, rfl, amd64_sp_emitted, amd64_sp_abi, amd64_word_size_agrees, amd64_endian_agrees,
       amd64_cc_regs_emitted, amd64_preserved_trashed_disjoint, amd64_sp_preserved,
       argsIntThenFp_of_inAbiOrder rfl amd64_args_in_abi_order, amd64_return_reg_abi, amd64_return_addr_abi,
-      amd64_stack_arg_len_is_word, amd64_stack_arg_offset_abi⟩
+      amd64_stack_arg_len_is_word, amd64_stack_arg_offset_abi,
+      argTypesIntThenFp_of_abi rfl amd64_arg_types_abi, amd64_stack_args_word_apart, amd64_queries_agree⟩
   · exact ⟨(mipsO32 "big"), rfl, mips_sp_emitted, mips_sp_abi, mips_word_size_agrees, mips_endian_agrees,
       mips_cc_regs_emitted, mips_preserved_trashed_disjoint, mips_sp_preserved,
       argsIntThenFp_of_inAbiOrder rfl mips_args_in_abi_order, mips_return_reg_abi, mips_return_addr_abi,
-      mips_stack_arg_len_is_word, mips_stack_arg_offset_abi⟩
+      mips_stack_arg_len_is_word, mips_stack_arg_offset_abi,
+      argTypesIntThenFp_of_abi rfl mips_arg_types_abi, mips_stack_args_word_apart, mips_queries_agree⟩
   · exact ⟨(mipsO32 "little"), rfl, mipsel_sp_emitted, mipsel_sp_abi, mipsel_word_size_agrees, mipsel_endian_agrees,
       mipsel_cc_regs_emitted, mipsel_preserved_trashed_disjoint, mipsel_sp_preserved,
       argsIntThenFp_of_inAbiOrder rfl mipsel_args_in_abi_order, mipsel_return_reg_abi, mipsel_return_addr_abi,
-      mipsel_stack_arg_len_is_word, mipsel_stack_arg_offset_abi⟩
+      mipsel_stack_arg_len_is_word, mipsel_stack_arg_offset_abi,
+      argTypesIntThenFp_of_abi rfl mipsel_arg_types_abi, mipsel_stack_args_word_apart, mipsel_queries_agree⟩
   · exact ⟨sysvPpc32, rfl, ppc_sp_emitted, ppc_sp_abi, ppc_word_size_agrees, ppc_endian_agrees,
       ppc_cc_regs_emitted, ppc_preserved_trashed_disjoint, ppc_sp_preserved,
       argsIntThenFp_of_inAbiOrder rfl ppc_args_in_abi_order, ppc_return_reg_abi, ppc_return_addr_abi,
-      ppc_stack_arg_len_is_word, ppc_stack_arg_offset_abi⟩
+      ppc_stack_arg_len_is_word, ppc_stack_arg_offset_abi,
+      argTypesIntThenFp_of_abi rfl ppc_arg_types_abi, ppc_stack_args_word_apart, ppc_queries_agree⟩
   · exact ⟨(aapcs64 "little"), rfl, aarch64_sp_emitted, aarch64_sp_abi, aarch64_word_size_agrees, aarch64_endian_agrees,
       aarch64_cc_regs_emitted, aarch64_preserved_trashed_disjoint, aarch64_sp_preserved,
       aarch64_args_in_abi_order_partial, aarch64_return_reg_abi, aarch64_return_addr_abi,
-      aarch64_stack_arg_len_is_word, aarch64_stack_arg_offset_abi⟩
+      aarch64_stack_arg_len_is_word, aarch64_stack_arg_offset_abi,
+      aarch64_arg_types_abi_partial, aarch64_stack_args_word_apart, aarch64_queries_agree⟩
   · exact ⟨(aapcs64 "big"), rfl, aarch64eb_sp_emitted, aarch64eb_sp_abi, aarch64eb_word_size_agrees, aarch64eb_endian_agrees,
       aarch64eb_cc_regs_emitted, aarch64eb_preserved_trashed_disjoint, aarch64eb_sp_preserved,
       aarch64eb_args_in_abi_order_partial, aarch64eb_return_reg_abi, aarch64eb_return_addr_abi,
-      aarch64eb_stack_arg_len_is_word, aarch64eb_stack_arg_offset_abi⟩
+      aarch64eb_stack_arg_len_is_word, aarch64eb_stack_arg_offset_abi,
+      aarch64eb_arg_types_abi_partial, aarch64eb_stack_args_word_apart, aarch64eb_queries_agree⟩
 
 /-- for the five architectures whose ABI table has a single argument sequence the argument clause is the full one -/
 theorem args_full_where_single_sequence :
@@ -372,27 +469,59 @@ theorem args_full_where_single_sequence :
   have h8 : ArgsIntThenFp d a' := h.2.2.2.2.2.2.2.1
   unfold ArgsIntThenFp at h8; rw [hf, List.append_nil] at h8; exact h8
 
+/-- likewise the answers of `argument_type` are the full clause for those five -/
+theorem arg_types_full_where_single_sequence :
+    ∀ d ∈ Arch.all, ∀ a, abiOf d.name = some a → a.fpArgs = [] → ArgTypesAbi d a := by
+  intro d hd a ha hf
+  obtain ⟨a', ha', h⟩ := every_architecture_partial d hd
+  have : a' = a := Option.some.inj (ha'.symm.trans ha)
+  subst this
+  have h13 : ArgTypesIntThenFp d a' := h.2.2.2.2.2.2.2.2.2.2.2.2.1
+  unfold ArgTypesIntThenFp at h13; rw [hf, List.append_nil] at h13; exact h13
+
 /-! ### Non-vacuity: the predicates are not satisfied by just any table — each entry repaired in /repo (and the
     one recorded as a finding) violates its clause when put back -/
 
 /-- MIPS with `$s8` (the lifter emits `$fp`) -/
-example : ¬ CcRegsEmitted { Arch.mips with preserved := ("$s8", 32) :: Arch.mips.preserved } := by decide
+example : ¬ CcRegsEmitted { Arch.mips with preserved := ("$s8", 32) :: Arch.mips.preserved } := by decide +kernel
 /-- PPC with the first stack argument at 4(r1) (the LR save word) -/
-example : ¬ StackArgOffsetAbi { Arch.ppc with stackArgOffset := 4 } sysvPpc32 := by decide
+example : ¬ StackArgOffsetAbi { Arch.ppc with stackArgOffset := 4 } sysvPpc32 := by decide +kernel
 /-- AArch64 with 4-byte stack slots -/
-example : ¬ StackArgLenIsWord { Arch.aarch64 with stackArgLen := 4 } (aapcs64 "little") := by decide
+example : ¬ StackArgLenIsWord { Arch.aarch64 with stackArgLen := 4 } (aapcs64 "little") := by decide +kernel
 /-- AArch64 with a 128-bit `x19` in the trashed set: not emitted, and both preserved and trashed -/
-example : ¬ CcRegsEmitted { Arch.aarch64 with trashed := ("x19", 128) :: Arch.aarch64.trashed } := by decide
-example : ¬ PreservedTrashedDisjoint { Arch.aarch64 with trashed := ("x19", 128) :: Arch.aarch64.trashed } := by decide
+example : ¬ CcRegsEmitted { Arch.aarch64 with trashed := ("x19", 128) :: Arch.aarch64.trashed } := by decide +kernel
+example : ¬ PreservedTrashedDisjoint { Arch.aarch64 with trashed := ("x19", 128) :: Arch.aarch64.trashed } := by decide +kernel
 /-- AArch64 with a 64-bit `v0` -/
-example : ¬ CcRegsEmitted { Arch.aarch64 with args := [("v0", 64)] } := by decide
+example : ¬ CcRegsEmitted { Arch.aarch64 with args := [("v0", 64)] } := by decide +kernel
 /-- AArch64 without `sp` in the preserved set -/
-example : ¬ SpPreserved { Arch.aarch64 with preserved := Arch.aarch64.preserved.filter (· != ("sp", 64)) } := by decide
+example : ¬ SpPreserved { Arch.aarch64 with preserved := Arch.aarch64.preserved.filter (· != ("sp", 64)) } := by decide +kernel
 /-- the recorded finding: today's AArch64 argument list is not the ABI's integer sequence -/
-example : ¬ ArgsInAbiOrder Arch.aarch64 (aapcs64 "little") := by decide
+example : ¬ ArgsInAbiOrder Arch.aarch64 (aapcs64 "little") := by decide +kernel
+/-- `argument_type` striding by the first offset instead of the slot length (MIPS: 16, 32, 48, … for 16, 20, 24, …) -/
+def strideByOffset (off len : Nat) : ArgType → ArgType
+  | .stack o => .stack (off + off * ((o - off) / len))
+  | t => t
+example : (Arch.mips.argTypes.map (strideByOffset 16 4)).drop 4 =
+    [.stack 16, .stack 32, .stack 48, .stack 64, .stack 80, .stack 96, .stack 112] := by decide +kernel
+example : ¬ StackArgsWordApart { Arch.mips with argTypes := Arch.mips.argTypes.map (strideByOffset 16 4) }
+    (mipsO32 "big") := by decide +kernel
+example : ¬ ArgTypesAbi { Arch.mips with argTypes := Arch.mips.argTypes.map (strideByOffset 16 4) }
+    (mipsO32 "big") := by decide +kernel
+example : ¬ StackArgsWordApart { Arch.aarch64 with argTypes := Arch.aarch64.argTypes.map (strideByOffset 0 8) }
+    (aapcs64 "little") := by decide +kernel
+/-- the recorded finding seen through `argument_type`: AArch64's ninth answer is `v0`, not `[sp]` -/
+example : ¬ ArgTypesAbi Arch.aarch64 (aapcs64 "little") := by decide +kernel
+/-- an `is_preserved` that answers Some(false) for a register the convention does not mention -/
+example : ¬ QueriesAgree { Arch.x86 with
+    isPreserved := Arch.x86.isPreserved.map (fun x => if x.2 = none then (x.1, some false) else x) } := by
+  decide +kernel
+/-- an `is_trashed` that calls the stack pointer trashed -/
+example : ¬ QueriesAgree { Arch.amd64 with
+    isTrashed := Arch.amd64.isTrashed.map (fun x => if x.1 = ("rsp", 64) then (x.1, some true) else x) } := by
+  decide +kernel
 /-- a descriptor that claims the wrong byte order -/
-example : ¬ EndianAgrees { Arch.mipsel with endian := "big" } (mipsO32 "little") := by decide
+example : ¬ EndianAgrees { Arch.mipsel with endian := "big" } (mipsO32 "little") := by decide +kernel
 /-- and the clauses have content on today's table: e.g. amd64's convention names 16 distinct registers, all emitted -/
-example : Arch.amd64.ccRegs.eraseDups.length = 16 := by decide
+example : Arch.amd64.ccRegs.eraseDups.length = 16 := by decide +kernel
 
 end Falcon.C20
